@@ -28,7 +28,7 @@ OPS = (['compute', 'misfit', 'gradient', 'jvec', 'jtvec', 'get_efield',
        [f'dict:{w}' for w in WHATS_COPY] +
        [f'file:{f}:{w}' for f in ('h5', 'npz', 'json')
         for w in ('computed', 'results', 'plain')] +
-       ['model:m2'])
+       ['model:m2', 'noise:n2'])
 
 RTOL = 1e-6
 
@@ -84,10 +84,15 @@ def gtol(pid):
     return RTOL if pid == 'P1' else 2e-3
 
 
-def new_sim(pid, mid, file_dir=None):
+NOISE = {'n1': (1e-13, 0.05), 'n2': (4e-13, 0.11)}
+
+
+def new_sim(pid, mid, file_dir=None, nid='n1'):
     import emg3d
+    survey = make_survey(pid)
+    survey.noise_floor, survey.relative_error = NOISE[nid]
     return emg3d.Simulation(
-        make_survey(pid), make_model(pid, mid), max_workers=1,
+        survey, make_model(pid, mid), max_workers=1,
         gridding='same', receiver_interpolation='linear', file_dir=file_dir,
         tqdm_opts=False, solver_opts=solver_opts(pid), verb=-1)
 
@@ -105,13 +110,13 @@ def vectors(pid):
 
 
 @functools.lru_cache(maxsize=None)
-def fresh(pid, mid):
+def fresh(pid, mid, nid='n1'):
     """Reports of a freshly created simulation (in memory)."""
     with warnings.catch_warnings():
         warnings.simplefilter('ignore')
         out = {}
         v, w = vectors(pid)
-        s = new_sim(pid, mid)
+        s = new_sim(pid, mid, None, nid)
         s.compute()
         out['synthetic'] = np.array(s.data.synthetic.data)
         out['misfit'] = float(s.misfit)
@@ -119,9 +124,9 @@ def fresh(pid, mid):
         src, freq = s._srcfreq[0]
         out['efield'] = np.array(s.get_efield(src, freq).field)
         out['hfield'] = np.array(s.get_hfield(src, freq).field)
-        s2 = new_sim(pid, mid)
+        s2 = new_sim(pid, mid, None, nid)
         out['jvec'] = np.array(s2.jvec(v))
-        s3 = new_sim(pid, mid)
+        s3 = new_sim(pid, mid, None, nid)
         _ = s3.misfit
         out['jtvec'] = np.array(s3.jtvec(w))
     return out
@@ -269,6 +274,11 @@ def apply(op, st, ref, viol, pid):
         st['mid'] = op.split(':')[1]
         S.model = make_model(pid, st['mid'])
         S.clean('all')
+    elif op.startswith('noise:'):
+        # explicit assignment of the noise model, then the documented clean
+        st['nid'] = op.split(':')[1]
+        S.survey.noise_floor, S.survey.relative_error = NOISE[st['nid']]
+        S.clean('computed')
     else:
         raise ValueError(op)
     return True
@@ -287,7 +297,8 @@ def case(c):
     pid, hist, filemode = c['pid'], list(c['hist']), c.get('file', False)
     tmp = tempfile.mkdtemp(prefix='c12_')
     viol = []
-    st = {'mid': 'm1', 'tmp': tmp, 'nfile': 0, 'derived': False}
+    st = {'mid': 'm1', 'nid': 'n1', 'tmp': tmp, 'nfile': 0,
+          'derived': False}
     key = None
     disabled = False
     step = None
@@ -299,16 +310,17 @@ def case(c):
             try:
                 for i, op in enumerate(hist):
                     step = op
-                    ok = apply(op, st, fresh(pid, st['mid']), viol, pid)
+                    ok = apply(op, st, fresh(pid, st['mid'], st['nid']), viol,
+                               pid)
                     if not ok:
                         disabled = True
                         break
                 if not disabled and not viol:
-                    key = canon(st['S'], st['mid'])
+                    key = canon(st['S'], st['mid'] + st['nid'])
                     # probes: what does the simulation report now?
                     step = 'probe'
                     S = st['S']
-                    ref = fresh(pid, st['mid'])
+                    ref = fresh(pid, st['mid'], st['nid'])
                     syn = np.array(S.data.synthetic.data)
                     fin = ~np.isnan(syn)
                     if fin.any() and not close(syn[fin],
